@@ -683,6 +683,8 @@ impl ClusterHandler for NocHandler {
 
         let mut updated_fab_idx = None;
 
+        let mut persist = FabricPersist::new(ctx.kv());
+
         let status = NodeOperationalCertStatusEnum::map(ctx.exchange().with_state(|state| {
             let sess = ctx.exchange().id().session(&mut state.sessions);
 
@@ -711,8 +713,17 @@ impl ClusterHandler for NocHandler {
 
             updated_fab_idx = Some(fabric.fab_idx().get());
 
+            // Same rule as for the other settings of a fabric (ACL, groups, ...): the label
+            // is persisted right away, unless the fail-safe is armed for this fabric - then
+            // it is committed by `CommissioningComplete` or rolled back with the fabric.
+            if !state.failsafe.is_armed_for(fab_idx.get()) {
+                persist.store(fabric)?;
+            }
+
             Ok(())
         }))?;
+
+        persist.run()?;
 
         // UpdateFabricLabel mutates the Fabrics list
         ctx.notify_own_cluster_changed();
